@@ -77,9 +77,7 @@ func (e *Exec) ctxErrState(st *State, ctx Value) (*Term, *Term) {
 func (e *Exec) ctxLoad(st *State, p Ptr, field int) Value {
 	cell := Ptr{Obj: p.Obj, Path: pathAppend(p.Path, field)}
 	if e.conc != nil {
-		if v, ok := e.conc.sharedLoad(e, st, cell, nil, "ctx"); ok {
-			return v
-		}
+		e.conc.sharedLoad(e, st, cell, nil, "ctx", nil)
 	}
 	return e.load(st, cell)
 }
